@@ -272,6 +272,10 @@ def run_quantis(w):
         bad.append(f"accept={acc} but status={status}")
     if frames_snapshot(old0) != b0 or frames_snapshot(old1) != b1:
         bad.append("old path frames changed")
+    if acc:
+        # an accepted quantis swap yields two paths that are valid in their ensembles (same Valid(path, ensemble) as the plain swap)
+        bad += ["[0-] " + b for b in check_valid(paths[0], (-10.0, lam0, lam0), ("R",), w["maxlength"])]
+        bad += ["[0+] " + b for b in check_valid(paths[1], (lam0, lam0, 1.0), ("L",), w["maxlength"])]
     # energy rule: V_lo(r_lo)=old0[-2], V_lo(r_hi)=v_one0, V_hi(r_hi)=old1[0], V_hi(r_lo)=v_one1
     if status not in ("QNE", "QLL", "QS0", "QS1"):
         dv0 = w["vpot0"][-2] - w["v_one0"]
